@@ -17,10 +17,10 @@ use std::rc::Rc;
 pub struct C10;
 
 #[derive(Clone)]
-struct Snapshot {
-    finite: Vec<Vec<Vec<ExprRef>>>,
-    infinite: Vec<Vec<ExprRef>>,
-    success: bool,
+pub struct Snapshot {
+    pub finite: Vec<Vec<Vec<ExprRef>>>,
+    pub infinite: Vec<Vec<ExprRef>>,
+    pub success: bool,
 }
 
 const MAX_QUERIES: usize = 100_000;
@@ -33,7 +33,7 @@ fn show_cube(ctx: &Context, cube: &[ExprRef]) -> String {
     cube.iter().map(|l| r2::render(ctx, *l)).collect::<Vec<_>>().join(" & ")
 }
 
-struct Explicit {
+pub struct Explicit {
     nstates: u64,
     ninputs: u64,
     feasible: Vec<bool>,
@@ -42,7 +42,7 @@ struct Explicit {
     init: FxHashSet<u64>,
 }
 
-fn explicit(ctx: &Context, sys: &TransitionSystem, r: &mut Reach) -> Result<Explicit, String> {
+pub fn explicit(ctx: &Context, sys: &TransitionSystem, r: &mut Reach) -> Result<Explicit, String> {
     let nstates = 1u64 << r.state_bits;
     let ninputs = 1u64 << r.input_bits;
     let mut feasible = vec![false; nstates as usize];
@@ -68,7 +68,7 @@ fn explicit(ctx: &Context, sys: &TransitionSystem, r: &mut Reach) -> Result<Expl
 
 impl C10 {
     /// checks the frame-trace invariants every correct IC3/PDR satisfies; Err((kind, text)) on a breach
-    fn check_snapshots(&self, sh: &mut Shard, ctx: &Context, sys: &TransitionSystem, r: &mut Reach, ex: &Explicit, snaps: &[Snapshot]) -> Result<(), (String, String)> {
+    pub fn check_snapshots(&self, sh: &mut Shard, ctx: &Context, sys: &TransitionSystem, r: &mut Reach, ex: &Explicit, snaps: &[Snapshot]) -> Result<(), (String, String)> {
         let state_env = |s: u64| -> Env {
             let mut env = Env::default();
             reach::decode(ctx, &r.state_syms, s, &mut env);
